@@ -774,12 +774,12 @@ package flamego
 //@   panics true
 //@   ensures result == r && routerWF(r.router) && treeWF()
 //@   ensures forall m string :: has(r.leaves, m) ==> leafBase(r.leaves[m]).headerMatcher != nil && fresh(leafBase(r.leaves[m]).headerMatcher)
-//@   ensures[C10] forall m string :: has(r.leaves, m) && leafStyle(r.leaves[m]) == 1 && staticAnc(leafBase(r.leaves[m]).parent) ==> !has(r.router.staticRoutes[m], routeStr(leafBase(r.leaves[m]).route))
+//@   ensures[C09,C10] forall m string :: has(r.leaves, m) && leafStyle(r.leaves[m]) == 1 && staticAnc(leafBase(r.leaves[m]).parent) ==> !has(r.router.staticRoutes[m], routeStr(leafBase(r.leaves[m]).route))
 //@   loop 0 invariant matches != nil && fresh(matches) && 1 <= i
 //@   loop 1 invariant routeObjWF(r) && routerWF(r.router) && treeWF() && matches != nil && fresh(matches)
 //@   loop 1 invariant forall m string :: visited(m) ==> has(r.leaves, m) && leafBase(r.leaves[m]).headerMatcher != nil && fresh(leafBase(r.leaves[m]).headerMatcher)
 //@   loop 1 invariant forall x *route.baseLeaf :: live(x) ==> x.headerMatcher == old(x.headerMatcher) || fresh(x.headerMatcher)
-//@   loop 1 invariant[C10] forall m string :: visited(m) && leafStyle(r.leaves[m]) == 1 && staticAnc(leafBase(r.leaves[m]).parent) ==> !has(r.router.staticRoutes[m], routeStr(leafBase(r.leaves[m]).route))
+//@   loop 1 invariant[C09,C10] forall m string :: visited(m) && leafStyle(r.leaves[m]) == 1 && staticAnc(leafBase(r.leaves[m]).parent) ==> !has(r.router.staticRoutes[m], routeStr(leafBase(r.leaves[m]).route))
 //@   loop 1 invariant forall m string :: r.router.staticRoutes[m] != r.leaves
 
 //@ func (*Route).Name
